@@ -232,3 +232,36 @@ def save_replay(prop, name, files, cmdline, note, violation, stdin_file=None):
         '#!/bin/sh\n# %s\ncd "$(dirname "$0")" && "${BLOCKWATCH:-blockwatch}" %s%s\n' % (note.replace('\n', ' '), cmdline, redir))
     os.chmod(os.path.join(rd, 'replay.sh'), 0o755)
     return rd
+
+
+def tag_ranges(content):
+    """{((line, col), (line, col))} of every `<block ...>` start tag in a file: 1-based line and byte column of
+    its `<` and of its `>` (reference for "the range spans exactly the start tag")."""
+    import re as _re
+    text = content.decode('latin1') if isinstance(content, bytes) else content
+    out = set()
+
+    def pos(off):
+        return (text.count('\n', 0, off) + 1, off - (text.rfind('\n', 0, off) + 1) + 1)
+    # attribute values may be quoted and then hold `>` (a regex with a named group): skip them as a whole
+    for m in _re.finditer(r'''<block(?:\s+[\w-]+(?:\s*=\s*(?:"[^"]*"|'[^']*'|[\w-]+))?)*\s*>''', text):
+        out.add((pos(m.start()), pos(m.end() - 1)))
+    return out
+
+
+def diag_ranges_on_tags(files, diags):
+    """Every diagnostic of `diags` ({file: [diagnostic JSON]}) spans one start tag of its file."""
+    for fname, ds in (diags or {}).items():
+        content = files.get(fname)
+        if content is None:
+            return False
+        ok = tag_ranges(content)
+        for d in ds:
+            r = d.get('range') or {}
+            try:
+                got = ((r['start']['line'], r['start']['character']), (r['end']['line'], r['end']['character']))
+            except (KeyError, TypeError):
+                return False
+            if got not in ok:
+                return False
+    return True
